@@ -159,6 +159,49 @@ pub fn run(o: &Opts, deck: &str) -> String {
         });
         out.line(&format!("isoit {} | {}", s as isize, r2.unwrap_or("P".into())));
     }
+    // ---- exactly one canonical member per suit-equivalence class: orbits of sampled turn / river observations
+    {
+        use robopoker::cards::isomorphism::Isomorphism;
+        use robopoker::cards::permutation::Permutation;
+        let no = if o.thorough() { 200_000 } else { 12_000 };
+        for i in 0..no {
+            let k = if i % 2 == 0 { 4 } else { 5 };
+            // half of them: pocket pair plus two-card holdings in two suits with nested ranks (tied suit keys)
+            let (pk, pb) = if i % 4 < 2 {
+                let pk = rng.cards(2, DECK_MASK);
+                (pk, rng.cards(k, DECK_MASK & !pk))
+            } else {
+                let ranks: Vec<u8> = (0..13u8).filter(|r| DECK_MASK >> (r * 4) & 1 == 1).collect();
+                let r = ranks[rng.below(ranks.len() as u64) as usize];
+                let (s1, s2) = (rng.below(4) as u8, rng.below(4) as u8);
+                let pk = (1u64 << (r * 4 + s1)) | (1u64 << (r * 4 + (if s2 == s1 { (s1 + 1) % 4 } else { s2 })));
+                let mut pb = 0u64;
+                let mut guard = 0;
+                while (pb.count_ones() as usize) < k && guard < 200 {
+                    guard += 1;
+                    let c = 1u64 << (ranks[rng.below(ranks.len() as u64) as usize] * 4 + rng.below(2) as u8 * 2 + rng.below(2) as u8 * (i % 2) as u8);
+                    if pk & c == 0 { pb |= c; }
+                }
+                if (pb.count_ones() as usize) < k { pb = rng.cards(k, DECK_MASK & !pk); }
+                (pk, pb)
+            };
+            let r = catch(|| {
+                let ob = Observation::from((Hand::from(pk), Hand::from(pb)));
+                let mut seen: Vec<(u64, u64)> = vec![];
+                let mut canon = 0u32;
+                for p in Permutation::exhaust().iter() {
+                    let q = p.permute(&ob);
+                    let key = (u64::from(*q.pocket()), u64::from(*q.public()));
+                    if !seen.contains(&key) {
+                        seen.push(key);
+                        if Isomorphism::is_canonical(&q) { canon += 1; }
+                    }
+                }
+                format!("{} {}", canon, seen.len())
+            });
+            out.line(&format!("orbit {} {} | {}", pk, pb, r.unwrap_or("P P".into())));
+        }
+    }
     // ---- children of observations
     let nc = if o.thorough() { 3000 } else { 150 };
     for i in 0..nc {
